@@ -1332,6 +1332,10 @@ impl<'p> Sim<'p> {
             for m in monitors.iter_mut() {
                 m.on_step(&ctx, &mut self.out);
             }
+            // reach measure shared by every engine-L check: the abstract link states visited
+            if self.out.states.len() < 8192 {
+                self.out.states.push(abstract_state(ctx.post, ctx.now, &ctx.world.reg));
+            }
         }
 
         // ---- route effects into the environment ----
